@@ -112,7 +112,7 @@ theorem grace_never_decreases (ops : List Op) (c : Cfg) (x : DistCfg)
           simp only [step] at hstep
           split at hstep <;> cases hstep
           exact ⟨x, hx, Nat.le_refl _⟩
-        | vaultInst _ _ _ _ =>
+        | vaultInst _ _ _ _ _ =>
           simp only [step] at hstep
           split at hstep <;> cases hstep
           exact ⟨x, hx, Nat.le_refl _⟩
@@ -120,7 +120,7 @@ theorem grace_never_decreases (ops : List Op) (c : Cfg) (x : DistCfg)
           simp only [step] at hstep
           split at hstep <;> cases hstep
           exact ⟨x, hx, Nat.le_refl _⟩
-        | lairInst _ _ _ =>
+        | lairInst _ _ _ _ =>
           simp only [step] at hstep
           split at hstep <;> cases hstep
           exact ⟨x, hx, Nat.le_refl _⟩
@@ -149,11 +149,51 @@ theorem grace_never_decreases (ops : List Op) (c : Cfg) (x : DistCfg)
       exact ⟨z, hz, Nat.le_trans hxy hyz⟩
     · exact ih c x hc hx hno'
 
-/-- in the default build no history creates a vault over a token-factory (`factory/…`) asset — which is
-    why the burn-fee clause of `ConfigOk` can never be broken by `update_config` testing the LP asset -/
-theorem no_vault_over_token_factory_asset (height : Nat) (ops : List Op) :
-    ∀ v ∈ (reach (Cfg.empty height) ops).vaults, v.asset.isTokenFactory = false :=
+/-- **no burn fee on a vault over a token-factory asset** — stated for what the code itself classes as a
+    factory token (`has_factory_token`: every `factory/{creator}/{subdenom}` denom and some more shapes),
+    after every history, whatever LP-token code the vaults were given.  (Before fix 074ebd5
+    `update_config` tested only the LP asset and this was false: see `known_findings.json`.) -/
+theorem no_burn_fee_on_factory_asset (height : Nat) (ops : List Op) :
+    ∀ v ∈ (reach (Cfg.empty height) ops).vaults, v.asset.codeSaysFactory = true → v.fees.c = 0 :=
   fun v hv => ((reach_inv pinned ops (Inv.empty height)).vaults v hv).2
+
+/-- … in particular over every token-factory asset in the documented sense -/
+theorem no_burn_fee_on_token_factory_asset (height : Nat) (ops : List Op) :
+    ∀ v ∈ (reach (Cfg.empty height) ops).vaults, v.asset.isTokenFactory = true → v.fees.c = 0 :=
+  fun v hv h => no_burn_fee_on_factory_asset height ops v hv (AssetClass.tokenFactory_codeSays h)
+
+/-- `update_config` refuses a burn fee on such a vault, on both paths, and keeps the asset -/
+theorem vault_update_refuses_burn_on_factory_asset (via : Bool) (v : VaultCfg) (f : Fees3)
+    (ha : v.asset.codeSaysFactory = true) (hc : 0 < f.c) : vaultUpdate via v (some f) = .err := by
+  simp only [vaultUpdate]
+  split
+  · rfl
+  · split
+    · have : decide (f.c > 0) = true := by simpa using hc
+      simp [ha, this]
+    · rfl
+    · exact absurd ‹_› (by
+        simp only [applyFees]
+        split <;> simp_all [fees3_not_panic])
+
+/-- with the stock LP-token code (the default deployment) no history creates a vault over a
+    token-factory (`factory/…`) asset at all: the derived cw20 symbol `uLP-factory/` is refused -/
+theorem no_vault_over_token_factory_asset (height : Nat) (ops : List Op) (hs : ops.all Op.stockLp = true) :
+    ∀ v ∈ (reach (Cfg.empty height) ops).vaults, v.asset.isTokenFactory = false := by
+  suffices H : ∀ (ops : List Op) (c : Cfg), ops.all Op.stockLp = true →
+      (∀ v ∈ c.vaults, v.asset.isTokenFactory = false) →
+      ∀ v ∈ (reach c ops).vaults, v.asset.isTokenFactory = false from
+    H ops _ hs (by intro v hv; cases hv)
+  intro ops
+  induction ops with
+  | nil => intro c _ hc; exact hc
+  | cons op ops ih =>
+    intro c hs hc
+    simp only [List.all_cons, Bool.and_eq_true] at hs
+    simp only [reach]
+    split
+    · next c' h => exact ih c' hs.2 (step_no_token_factory_vault hs.1 hc h)
+    · exact ih c hs.2 hc
 
 /-! ### what each validator accepts, exactly -/
 
@@ -264,10 +304,12 @@ theorem grace_update_ok_iff (x : DistCfg) (g : Nat) :
 /-- `validate_growth_rate`: accepted iff the rate is at most 1 -/
 theorem growth_ok_iff (r : Nat) : growthValid r = true ↔ r ≤ 1000000000000000000 := growthValid_iff r
 
-/-- lair `instantiate` accepts exactly: at most two bonding assets, all native (and, in the mock chain,
-    at least one), growth rate `≤ 1` -/
-theorem lair_instantiate_ok_iff (r n : Nat) (k : Bool) :
-    (∃ x, lairInstantiate r n k = .ok x) ↔ 1 ≤ n ∧ n ≤ 2 ∧ r ≤ 1000000000000000000 ∧ k = false := by
+/-- lair `instantiate` accepts exactly: at most two bonding assets, all native, growth rate `≤ 1` — and
+    at least one bonding asset where the chain refuses empty attribute values (`strict`, the mock chain;
+    at entry-point level the empty list is accepted, with the growth rate checked all the same) -/
+theorem lair_instantiate_ok_iff (r n : Nat) (k strict : Bool) :
+    (∃ x, lairInstantiate r n k strict = .ok x) ↔
+      (strict = true → 1 ≤ n) ∧ n ≤ 2 ∧ r ≤ 1000000000000000000 ∧ k = false := by
   rw [← growth_ok_iff]
   simp only [lairInstantiate, pinned_bonding_assets_limit]
   constructor
@@ -282,12 +324,27 @@ theorem lair_instantiate_ok_iff (r n : Nat) (k : Bool) :
         · next hk =>
           split at h
           · cases h
-          · simp only [Bool.not_eq_false] at hr
-            exact ⟨by omega, by omega, hr, by simpa using hk⟩
+          · next hn =>
+            simp only [Bool.not_eq_false] at hr
+            refine ⟨?_, by omega, hr, by simpa using hk⟩
+            intro hs
+            subst hs
+            simp only [Bool.and_true, decide_eq_true_eq] at hn
+            omega
   · rintro ⟨h1, h2, hr, hk⟩
     have : ¬ n > 2 := by omega
-    have : ¬ n = 0 := by omega
-    simp [*]
+    subst hk
+    cases strict
+    · simp [*]
+    · have : ¬ n = 0 := by have := h1 rfl; omega
+      simp [*]
+
+/-- the stored growth rate is at most 1 whatever the bonding-asset list (empty included) -/
+theorem lair_growth_bounded (r n : Nat) (k strict : Bool) (x : LairCfg)
+    (h : lairInstantiate r n k strict = .ok x) : x.growth ≤ 1000000000000000000 := by
+  have := lairInstantiate_ok pinned_bonding_assets_limit h
+  simp only [LairCfg.ok, Bool.and_eq_true, decide_eq_true_eq] at this
+  exact this.1
 
 /-- collector `update_config { take_rate: Some t }` is accepted iff `t < 1` -/
 theorem take_rate_ok_iff (c : CollCfg) (t : Nat) :
@@ -347,17 +404,33 @@ example : lairInstantiate 1000000000000000001 2 false = .err := by decide
 example : lairInstantiate 0 3 false = .err := by decide
 example : collUpdate ⟨0⟩ (some 1000000000000000000) = .err := by decide
 
-/-- Recorded observation (not a violation of the property as stated): the vault's `instantiate` tests the
-    burn-fee rule against the vault asset using `is_factory_token`, which also answers "yes" for the
-    denom shape `ibc/<63 alnum>/x`; `update_config` tests the LP asset (a cw20), so the very fee that
-    `instantiate` refuses is accepted afterwards. Reproduced on the real contracts by the engine. -/
+/-- The vault's burn-fee rule uses `has_factory_token`, which also answers "yes" for the denom shape
+    `ibc/<63 alnum>/x`; `instantiate` and (since fix 074ebd5) `update_config` refuse a burn fee there
+    alike. -/
 example :
     vaultInstantiate false ⟨0, 0, 1⟩ .ibc2 false = .err ∧
     (reach (Cfg.empty 1) [.vaultInst false ⟨0, 0, 0⟩ .ibc2 false, .vaultUpd false 0 (some ⟨0, 0, 1⟩)]).vaults
-      = [⟨⟨0, 0, 1⟩, .ibc2, false⟩] := by decide
+      = [⟨⟨0, 0, 0⟩, .ibc2, false⟩] := by decide
 
-/-- a vault over a genuine token-factory denom is refused on every path and with every fee -/
+/-- with the stock LP-token code a vault over a genuine token-factory denom is refused on every path and
+    with every fee … -/
 example : ∀ via tf, vaultInstantiate via ⟨0, 0, 0⟩ .factory tf = .err ∧ vaultCreate ⟨0, 0, 0⟩ .factory tf = .err := by
   decide
+
+/-- … with an LP-token code that accepts the symbol it exists (the burn-fee clause is not vacuous), it is
+    refused with a burn fee at creation, and `update_config` refuses a burn fee on it on both paths while
+    still accepting other fee changes -/
+example :
+    (reach (Cfg.empty 1)
+      [.vaultInst true ⟨1, 2, 0⟩ .factory false true,      -- created through the factory
+       .vaultInst false ⟨1, 2, 3⟩ .factory false true,     -- burn fee at instantiate: refused
+       .vaultUpd true 0 (some ⟨5, 6, 7⟩),                  -- burn fee through the factory: refused
+       .vaultUpd true 0 (some ⟨5, 6, 0⟩)]).vaults          -- other fees: accepted
+      = [⟨⟨5, 6, 0⟩, .factory, true⟩] := by decide
+
+/-- the lair at entry-point level: an empty bonding-asset list is accepted, the growth bound holds -/
+example : (lairInstantiate 1000000000000000000 0 false false).isOk = true ∧
+    lairInstantiate 1000000000000000001 0 false false = .err ∧
+    lairInstantiate 5 0 false true = .err := by decide
 
 end WW.C18
